@@ -213,6 +213,18 @@ func runCheck(o *options) int {
 	var wg sync.WaitGroup
 	for _, ob := range obls {
 		if ob.Res.status == "not-attempted" {
+			if o.tier == "thorough" {
+				// thorough: obligations outside the claimed kinds of partial contracts are attempted too,
+				// for information only (they are never counted and never raise a violation)
+				wg.Add(1)
+				sem <- struct{}{}
+				go func(ob *Obligation) {
+					defer wg.Done()
+					defer func() { <-sem }()
+					res, _ := solve(tmp, func(noLambda bool) string { return ob.queryGoal(prelude, noLambda, false, ob.goal) }, 4, 4)
+					ob.Explore = res.status
+				}(ob)
+			}
 			continue
 		}
 		wg.Add(1)
